@@ -97,6 +97,15 @@ CHECKS = {
             'exactly as the model predicts afterwards.',
             'Frame finder over-approximates acceptable frames (sound); Twisted reactor behaviour modelled; fake transports.',
             'DESIGN.md 4 C12'),
+    'C13': ('hypothesis fault scripts per transmission x retry settings x client kinds in virtual time + exhaustive enumeration of short scripts; oracle = termination, no raise, transmission count, retry semantics, healthy follow-up',
+            'Generated fault scripts (full/exception reply, silence, partial, garbage, wrong unit, stale, late, OSError on '
+            'send/receive, peer close) for up to five transmissions under all retry settings on TCP, serial rtu/ascii/binary and UDP '
+            'clients running on a virtual clock: the call must return a response or error object without raising within a time and '
+            'transport-operation bound, send at most 1+retries identical frames, honour retry_on_empty / retry_on_invalid, and a '
+            'follow-up transaction over the healed transport must return its own reply. All scripts up to length 2 (thorough 3) '
+            'are enumerated exhaustively.',
+            'Virtual-time transports; connection establishment always succeeds (excepted by the property).',
+            'DESIGN.md 4 C13'),
     'C14': ('exhaustive sweep of every predicting request class x quantity against the real server path + real serial client over a scripted virtual-time port (hypothesis for the rest)',
             'Every request class that predicts its reply size is swept over its whole quantity range and the prediction compared '
             'with the PDU length of the response the real server path returns; a real ModbusSerialClient then performs '
